@@ -8,6 +8,7 @@ import Heathcliff.Proofs.GenRns14
 import Heathcliff.Proofs.GenRns16
 import Heathcliff.Proofs.GenRns19
 import Heathcliff.Proofs.GenRns20
+import Heathcliff.Proofs.GenRns21
 
 /- Property theorems only (statements verbatim; proofs are the helper lemmas of Heathcliff/Proofs). -/
 namespace HC.C10
@@ -251,5 +252,11 @@ theorem gen_decrypt_mod_t_centred : type_of% @HC.gr_decrypt_mod_t_centred := @HC
 /-- END TO END (BEHZ fast floor; the composition left open in phase 4f): the generated `fast_floor` writes `(⌊Y_j/Q⌋ − α_j) mod b_i` at `i·n + j` of ANY destination
     buffer, ONE `α_j ∈ [0, |q|)` for all `b_i ∈ Bsk` (composition of `gen_fast_floor_eq` with `fastFloor_spec`, `fastFloor_scalar`, `RNSH.crt_sum`) -/
 theorem gen_fast_floor_floor : type_of% @HC.gr_fast_floor_floor := @HC.gr_fast_floor_floor
+
+/-- stepping stone for `RNSBase::compose` (not tied yet): the C08 word-layer function `util::multiply_uint_u64` (src/util/basic.rs; left out in phase 4d)
+    generated from the source = the hand model `multiplyUintU64`, for EVERY operand, word and result buffer (zero operand / one-word result / limb loop
+    with the final carry) -/
+theorem gen_multiply_uint_u64_eq (a : List Nat) (w : Nat) (r : List Nat) : HC.GenR.multiply_uint_u64 a w r = multiplyUintU64 a w r.length :=
+  HC.gr_multiply_uint_u64_eq a w r
 
 end HC.C10
